@@ -346,7 +346,7 @@ fn emit_rev(fam: &Family, ri: usize, out: &mut String) {
         writeln!(out, "    #[async_trait]").unwrap();
     }
     writeln!(out, "    #[savefile_abi_exportable(version = {})]", k).unwrap();
-    writeln!(out, "    pub trait {}{} {{", t, if fam.send_sync { ": Send + Sync" } else { "" }).unwrap();
+    writeln!(out, "    pub trait {}{} {{", t, fam.bounds()).unwrap();
     for m in &rev.methods {
         writeln!(out, "        {};", method_sig(fam, m)).unwrap();
     }
@@ -435,6 +435,12 @@ fn emit_rev(fam: &Family, ri: usize, out: &mut String) {
     )
     .unwrap();
     writeln!(out, "        fn latest_version(&self) -> u32 {{ <dyn {} as AbiExportable>::get_latest_version() }}", t).unwrap();
+    writeln!(
+        out,
+        "        fn connection_markers(&self) -> (bool, bool) {{ use abirt::{{NotSend, NotSync}}; let p = abirt::Probe::<AbiConnection<dyn {}>>(std::marker::PhantomData); (p.is_send(), p.is_sync()) }}",
+        t
+    )
+    .unwrap();
     writeln!(out, "        fn trait_name(&self) -> String {{ \"{}\".to_string() }}", t).unwrap();
     writeln!(out, "    }}").unwrap();
     writeln!(out, "  }}").unwrap();
